@@ -42,8 +42,19 @@ func (f *Expand) Apply(inputs []tensor.Tensor) ([]tensor.Tensor, error) {
 		}
 	}
 
+	// If the new shape has fewer dimensions than the input tensor, it is aligned
+	// with the trailing dimensions of the input (missing leading dimensions count as 1).
+	for len(shape) < len(input.Shape()) {
+		shape = append([]int{1}, shape...)
+	}
+
 	for axis := len(shape) - 1; axis >= 0; axis-- {
 		if input.Shape()[axis] != shape[axis] {
+			// Only a dimension of size 1 can be stretched.
+			if input.Shape()[axis] != 1 && shape[axis] != 1 {
+				return nil, ops.ErrIncompatibleDimensions()
+			}
+
 			input, err = tensor.Repeat(input, axis, shape[axis])
 			if err != nil {
 				return nil, err
